@@ -223,6 +223,73 @@ async fn scenario(rng: &mut Rng, out: &mut Out, sidx: usize) {
     }
     all_dates.push(clock);
 
+    // directed: a room mutation whose write fails must not leave the new definition in force
+    {
+        use discret::verif_hooks::database::sqlite_database::verif_faults;
+        clock += 1000;
+        verif_clock::set(clock);
+        let d0 = clock;
+        let mut p = Parameters::default();
+        p.add("b", key_b64(B, &a, &b)).unwrap();
+        let r = b.db.mutate_raw(r#"mutate { sys.Room{ admin:[{verif_key:$b enabled:true}] authorisations:[{ name:"g1" }] } }"#, Some(p)).await.unwrap();
+        let ri = &r.mutate_entities[0];
+        let room3 = base64_encode(&ri.node_to_mutate.id);
+        let g1 = base64_encode(&ri.sub_nodes.get("authorisations").unwrap()[0].node_to_mutate.id);
+        push_room(&a, &b, &room3).await;
+        clock += 1000;
+        verif_clock::set(clock);
+        let d1 = clock;
+        let mut p = Parameters::default();
+        p.add("r", room3.clone()).unwrap();
+        p.add("k", key_b64(A, &a, &b)).unwrap();
+        b.db.mutate_raw(r#"mutate { sys.Room{ id:$r admin:[{verif_key:$k enabled:true}] } }"#, Some(p)).await.unwrap();
+        push_room(&a, &b, &room3).await;
+        scn.room_ids.insert(3, room3.clone());
+        let mut ids = HashMap::new();
+        ids.insert(1u64, g1.clone());
+        scn.auth_ids.insert(3, ids);
+        scn.defs.push((3, vec![Ev::Admin(B, d0, true), Ev::Group(1), Ev::Admin(A, d1, true)]));
+        clock += 1000;
+        let now = clock;
+        verif_clock::set(now);
+        for step in 0..5 {
+            let defs = defs_coq(&scn.defs);
+            let before = dump(&a).await;
+            let before_rooms = dump_rooms(&a).await;
+            let mut p = Parameters::default();
+            p.add("r", room3.clone()).unwrap();
+            if step == 0 || step == 2 || step == 4 {
+                let res = a.db.mutate_raw(r#"mutate { ns.E1{ room_id:$r name:"directed" } }"#, Some(p)).await;
+                let refused = res.is_err();
+                let changed = before != dump(&a).await;
+                out.push(Case { kind: "e2e-create".into(), coq: format!("CE2E (CMut {} {} {} [{}])", defs, gn(A), gz(now), ment(head(1, Some(3), now, true, None), vec![])),
+                                obs: vec![refused as i64, if refused { changed as i64 } else { 1 }], meta: json!({"scenario": sidx, "op": format!("directed-create-{step}"), "refused": refused, "now": now}) });
+            } else {
+                p.add("g", g1.clone()).unwrap();
+                let inner = format!("CRoomMut {} {} {} {} [{}]", defs, gn(A), gn(3), gz(now), Ev::Right(1, 1, now, true, true).coq());
+                if step == 1 {
+                    tokio::time::sleep(std::time::Duration::from_millis(400)).await;
+                    verif_faults::arm(verif_faults::MODE_FAIL, 1, 0, None);
+                }
+                let res = a.db.mutate_raw(r#"mutate { sys.Room{ id:$r authorisations:[{ id:$g rights:[{entity:"ns.E1" mutate_self:true mutate_all:true}] }] } }"#, Some(p)).await;
+                let fired = verif_faults::fired();
+                verif_faults::disarm();
+                tokio::time::sleep(std::time::Duration::from_millis(100)).await;
+                let refused = res.is_err();
+                let changed = before != dump(&a).await || before_rooms != dump_rooms(&a).await;
+                if step == 1 && fired == 1 {
+                    out.push(Case { kind: "e2e-room-mutation-write-failure".into(), coq: format!("CFailedWrite ({})", inner), obs: vec![refused as i64, changed as i64],
+                                    meta: json!({"scenario": sidx, "op": "directed-room-mutation-write-failure", "refused": refused, "changed": changed, "now": now}) });
+                } else {
+                    out.push(Case { kind: "e2e-room-mutation".into(), coq: format!("CE2E ({})", inner), obs: vec![refused as i64, if refused { changed as i64 } else { 1 }],
+                                    meta: json!({"scenario": sidx, "op": format!("directed-room-mutation-{step}"), "refused": refused, "fired": fired, "now": now}) });
+                    if !refused { scn.defs.iter_mut().find(|d| d.0 == 3).unwrap().1.push(Ev::Right(1, 1, now, true, true)); }
+                }
+            }
+        }
+        all_dates.push(now);
+    }
+
     // A's operations
     let nops = 10 + rng.below(6);
     for _ in 0..nops {
@@ -232,7 +299,7 @@ async fn scenario(rng: &mut Rng, out: &mut Out, sidx: usize) {
         let defs = defs_coq(&scn.defs);
         let before = dump(&a).await;
         let before_rooms = dump_rooms(&a).await;
-        let kind = rng.below(14);
+        let kind = [0,1,2,3,4,5,6,7,8,9,10,11,12,13,14,14,14][rng.below(17) as usize];
         let (coq, refused, opname): (String, bool, &str);
         match kind {
             0 | 1 => { // create (plain or nested)
@@ -343,6 +410,61 @@ async fn scenario(rng: &mut Rng, out: &mut Out, sidx: usize) {
                     all_dates.push(now);
                 }
                 opname = "room-mutation";
+            }
+            14 => { // a room mutation whose write fails (injected storage failure): answered Err, nothing changes,
+                    // and the rights it would have granted are NOT in force afterwards
+                use discret::verif_hooks::database::sqlite_database::verif_faults;
+                let rid = 1 + rng.below(2);
+                let groups: Vec<u64> = scn.auth_ids[&rid].keys().cloned().filter(|g| *g != 9).collect();
+                if groups.is_empty() { continue; }
+                let g = *rng.pick(&groups);
+                let e = 1 + rng.below(3);
+                let mut p = Parameters::default();
+                p.add("r", scn.room_ids[&rid].clone()).unwrap();
+                p.add("g", scn.auth_ids[&rid][&g].clone()).unwrap();
+                p.add("k", key_b64(A, &a, &b)).unwrap();
+                p.add("e", ename(e)).unwrap();
+                // only interesting when the caller cannot create that entity in that room now: probe first
+                {
+                    let mut pp = Parameters::default();
+                    pp.add("r", scn.room_ids[&rid].clone()).unwrap();
+                    let probe = a.db.mutate_raw(&format!(r#"mutate {{ ns.E{e}{{ room_id:$r name:"probe" }} }}"#), Some(pp)).await;
+                    let after = dump(&a).await;
+                    let refused_p = probe.is_err();
+                    out.push(Case { kind: "e2e-create".into(), coq: format!("CE2E (CMut {} {} {} [{}])", defs, gn(A), gz(now), ment(head(e, Some(rid), now, true, None), vec![])),
+                                    obs: vec![refused_p as i64, if refused_p { (before != after) as i64 } else { 1 }], meta: json!({"scenario": sidx, "op": "create-probe", "refused": refused_p, "now": now}) });
+                    if let Ok(r) = probe { scn.rows.push(Row { id: base64_encode(&r.mutate_entities[0].node_to_mutate.id), ent: e, room: rid, author: A, children: vec![], alive: true }); continue; }
+                }
+                // let the recompute that follows the previous request pass, then fail the next batch at BEGIN
+                tokio::time::sleep(std::time::Duration::from_millis(400)).await;
+                verif_faults::arm(verif_faults::MODE_FAIL, 1, 0, None);
+                let res = a.db.mutate_raw(r#"mutate { sys.Room{ id:$r authorisations:[{ id:$g users:[{verif_key:$k enabled:true}] rights:[{entity:$e mutate_self:true mutate_all:true}] }] } }"#, Some(p)).await;
+                let fired = verif_faults::fired();
+                verif_faults::disarm();
+                tokio::time::sleep(std::time::Duration::from_millis(100)).await;
+                let inner = format!("CRoomMut {} {} {} {} [{}; {}]", defs, gn(A), gn(rid), gz(now), Ev::User(g, A, now, true).coq(), Ev::Right(g, e, now, true, true).coq());
+                if fired != 1 {
+                    // the caller was not admin (refused before any write) or the batch was not the faulted one: an ordinary room mutation
+                    coq = inner;
+                    refused = res.is_err();
+                    if res.is_ok() { let evs = &mut scn.defs.iter_mut().find(|d| d.0 == rid).unwrap().1; evs.push(Ev::User(g, A, now, true)); evs.push(Ev::Right(g, e, now, true, true)); all_dates.push(now); }
+                    opname = "room-mutation";
+                } else {
+                    let after = dump(&a).await;
+                    let changed = before != after || before_rooms != dump_rooms(&a).await;
+                    out.push(Case { kind: "e2e-room-mutation-write-failure".into(), coq: format!("CFailedWrite ({})", inner), obs: vec![res.is_err() as i64, changed as i64],
+                                    meta: json!({"scenario": sidx, "op": "room-mutation-write-failure", "refused": res.is_err(), "changed": changed, "now": now}) });
+                    // what the failed mutation would have granted must not be in force: the caller creates a row of that entity
+                    let before2 = dump(&a).await;
+                    let mut p = Parameters::default();
+                    p.add("r", scn.room_ids[&rid].clone()).unwrap();
+                    let res2 = a.db.mutate_raw(&format!(r#"mutate {{ ns.E{e}{{ room_id:$r name:"after-failed-room-mutation" }} }}"#), Some(p)).await;
+                    coq = format!("CMut {} {} {} [{}]", defs, gn(A), gz(now), ment(head(e, Some(rid), now, true, None), vec![]));
+                    refused = res2.is_err();
+                    if let Ok(r) = res2 { scn.rows.push(Row { id: base64_encode(&r.mutate_entities[0].node_to_mutate.id), ent: e, room: rid, author: A, children: vec![], alive: true }); }
+                    let _ = before2;
+                    opname = "create-after-failed-room-mutation";
+                }
             }
             13 => { // all references of a field removed by an update (subs: null): created by the caller or by someone else
                 let parents: Vec<usize> = alive.iter().cloned().filter(|i| scn.rows[*i].ent == 1).collect();
